@@ -208,6 +208,14 @@ def parts(tier):
         for n in range(0, 5):
             for seq in itertools.product((0, 0.0, 0.5, 100, 120.5, -3), repeat=n):
                 yield seq
+        # constant runs and near-constant runs of non-dyadic floats (where a one-pass variance cancels catastrophically)
+        for v in (0.1, 201.7, 123.4, 220.3, 1e-05, 98.61948118117667, 1234.5678):
+            for n in range(1, 8):
+                yield (v,) * n
+                yield (0,) + (v,) * n + (0, 0)
+                if n > 2:
+                    yield (v,) * (n - 1) + (v * 2,)
+                    yield (v,) * (n // 2) + (v * 2,) + (v,) * (n - n // 2)
 
     def gen_jumps():
         for n in range(0, 5):
@@ -231,7 +239,8 @@ def parts(tier):
                   rule="all non-constant series over {1,2,2.5,7} of length 2-5: mean 0, sample sd 1, length and rank order preserved, values; rms; "
                        "znormalizeSpeakerData keeps rows and order", bounds={}),
         InputPart("getPitchMeasures", gen_pitch, _check_pitch,
-                  rule="all series over {0,0.0,0.5,100,120.5,-3} of length 0-4 x zero-filter x median window {None,3,5}", bounds={}),
+                  rule="all series over {0,0.0,0.5,100,120.5,-3} of length 0-4, plus constant / near-constant runs (length 1-7, with zeros "
+                       "around and octave spikes inside) of 7 non-dyadic floats, x zero-filter x median window {None,3,5}", bounds={}),
         InputPart("detectPitchErrors", gen_jumps, _check_jumps,
                   rule="all series over {50,75.5,100,140,200} of length 0-4 x thresholds %s (exact ties at the threshold: either answer); marking "
                        "a textgrid" % (THRS,), bounds={}),
